@@ -336,6 +336,12 @@ theorem arch_pkgver_drops_prerelease_witness :
     archPkgver { version := b!"1.0.0", prerelease := b!"rc1", release := [49] }
       ≠ archPkgverSpec { version := b!"1.0.0", prerelease := b!"rc1", release := [49] } := by decide
 
+/-- known finding C02-dot-line-in-description: the excluded point of `WfField.conts_not_dot` is real –
+    a continuation line that is exactly "." is rendered as the blank-line marker and reads back as blank -/
+theorem dot_line_reads_back_blank_witness :
+    parseControl (renderControl [ { key := b!"Description", first := b!"synopsis", conts := [[dot], b!"end"] } ])
+      = [ { key := b!"Description", first := b!"synopsis", conts := [[], b!"end"] } ] := by decide
+
 /-- non-vacuity: a deb control file with relations, a multi-line description with a blank line and a
     custom field round-trips through the parser -/
 example :
